@@ -29,9 +29,9 @@ CLAIMED = {
    note='As C04. A source failure in the FOREGROUND of lazy_parallel_map (the consumer\'s own thread) is outside the antecedent "evaluated in the background": only "not swallowed" is demanded there (DESIGN section 6).',
    tech='TLA+ specs of the thread protocols with fault injection, TLC model checking + controlled-scheduler trace validation'),
  'C07': dict(engine='conc', cat='model_checking', ref='DESIGN.md section 6 C07',
-   text='Same machinery as C04. State invariants pulled - delivered <= buffer + 2 and started - delivered <= buffer in every state of every schedule (the consumer may pause anywhere); the tightened bounds are REFUTED by TLC (vacuity guard). On real event logs the bound is evaluated at every prefix, with workloads of 4..12 items above the buffer size.',
+   text='Same machinery as C04. State invariants pulled - delivered <= buffer + 2 and started - delivered <= buffer in every state of every schedule (the consumer may pause anywhere); the tightened bounds are REFUTED by TLC (vacuity guard). On real event logs the bound is evaluated at every prefix, with workloads of 4..12 items above the buffer size. Beyond the enumerated constants: TLC checks that SingleThreadPrefetch.tla / PoolMap.tla IMPLEMENT the counting abstractions STPCount.tla / PoolCount.tla (refinement, PROPERTY CountSpec), and Apalache proves their invariant inductive with unbounded integers, i.e. the bound for every dataset length, buffer size and pool size. The worker pools are also run over structured pipelines they share, with every source line of core.py a scheduling point.',
    note='As C04. With catch_filter_exception, examples dropped by the catch count as consumed once finished.',
-   tech='TLA+ specs of the thread protocols, TLC invariant checking + controlled-scheduler trace validation'),
+   tech='TLA+ specs of the thread protocols, TLC invariant checking + refinement to a counting abstraction with an Apalache inductive-invariant proof + controlled-scheduler trace validation'),
  'C14': dict(engine='pipeline', cat='model_checking', ref='DESIGN.md section 6 C14',
    text='Staged fault family of Pipeline.tla: source . failing map (EVERY subset of failing positions x 5 exception classes incl. a subclass of FilterException and a BaseException) . middle stage . every catch form (catch(E) for single type / tuple / Exception / unrelated type, thread and pool prefetch with catch_filter_exception) or an eager operation that must propagate . consumer on top (items, map, batch). TLC checks the implementation-shaped model against the reference (which removes exactly the examples whose evaluation raises a caught class and surfaces any other failure at its position with its class) for all programs; they are executed on the real library (quick: seeded sample + everything the model flags; thorough: all) and TLC judges the recorded value AND key iteration.',
    note='As C01. catch() over an input whose examples cannot be fetched individually (non-indexable) is outside the quantifier ("indexable upstream pipelines").',
